@@ -371,6 +371,29 @@ func count(class string, full int) int {
 	return (full + 1) / 2
 }
 
+// Container classes: zero (zero value), empty, part, full (built by filling only), and
+// two "interrupted" ones whose internal cursors are not in their freshly filled
+// position: "interrupted" (Buffer after pops and UpdateFront; Pipeline with items in
+// flight at several stages with dwell counts left; Set after Evict handed out ways
+// that were not visited again, one of them re-bound to a new key) and "drained"
+// (Buffer popped empty; Pipeline run empty; Set with every way evicted).
+
+// probes run the same operations on (deep copies of) an original container and its
+// restored counterpart and describe the first behavioural difference.
+var ctrProbes = map[reflect.Type]func(a, b reflect.Value) string{}
+
+func sameItems[T any](what string, xs, ys []T) string {
+	if len(xs) != len(ys) {
+		return fmt.Sprintf("%s: %d items, restored %d", what, len(xs), len(ys))
+	}
+	for i := range xs {
+		if ok, d := Same(reflect.ValueOf(xs[i]), reflect.ValueOf(ys[i]), true); !ok {
+			return fmt.Sprintf("%s: item %d differs: %s", what, i, d)
+		}
+	}
+	return ""
+}
+
 func regBuffer[T any](sample queueing.Buffer[T]) {
 	t := reflect.TypeOf(sample)
 	var z T
@@ -380,10 +403,58 @@ func regBuffer[T any](sample queueing.Buffer[T]) {
 			return reflect.Zero(t)
 		}
 		b := queueing.NewBuffer[T]("state.buf", 3)
-		for i := 0; i < count(class, 3); i++ {
-			b.PushTyped(item(i).Interface().(T))
+		it := func(i int) T { return item(i).Interface().(T) }
+		switch class {
+		case "interrupted":
+			b.PushTyped(it(0))
+			b.PushTyped(it(1))
+			b.PushTyped(it(2))
+			b.Pop()
+			b.UpdateFront(it(3))
+			b.PushTyped(it(4))
+			b.Pop()
+		case "drained":
+			b.PushTyped(it(0))
+			b.PushTyped(it(1))
+			b.Pop()
+			b.PushTyped(it(2))
+			b.Pop()
+			b.Pop()
+		default:
+			for i := 0; i < count(class, 3); i++ {
+				b.PushTyped(it(i))
+			}
 		}
 		return reflect.ValueOf(b)
+	}
+	ctrProbes[t] = func(av, bv reflect.Value) string {
+		a, b := av.Addr().Interface().(*queueing.Buffer[T]), bv.Addr().Interface().(*queueing.Buffer[T])
+		if a.Name() != b.Name() || a.Capacity() != b.Capacity() || a.Size() != b.Size() || a.CanPush() != b.CanPush() {
+			return fmt.Sprintf("buffer name/capacity/size/canpush %q/%d/%d/%v restored as %q/%d/%d/%v",
+				a.Name(), a.Capacity(), a.Size(), a.CanPush(), b.Name(), b.Capacity(), b.Size(), b.CanPush())
+		}
+		if d := sameItems("buffer Elements()", a.Elements(), b.Elements()); d != "" {
+			return d
+		}
+		var xs, ys []T
+		for a.Size() > 0 {
+			xs = append(xs, a.Pop())
+		}
+		for b.Size() > 0 {
+			ys = append(ys, b.Pop())
+		}
+		if d := sameItems("buffer pop order", xs, ys); d != "" {
+			return d
+		}
+		if a.CanPush() != b.CanPush() {
+			return "buffer CanPush differs after draining"
+		}
+		if a.CanPush() && len(xs) > 0 {
+			a.PushTyped(xs[0])
+			b.PushTyped(xs[0])
+			return sameItems("buffer after push", a.Elements(), b.Elements())
+		}
+		return ""
 	}
 }
 
@@ -396,11 +467,33 @@ func regPipeline[T any](sample queueing.Pipeline[T]) {
 			return reflect.Zero(t)
 		}
 		p := queueing.NewPipeline[T](2, 3)
-		sink := queueing.NewBuffer[T]("sink", 0) // nothing leaves the pipeline
+		it := func(i int) T { return item(i).Interface().(T) }
+		blocked := queueing.NewBuffer[T]("sink", 0) // nothing leaves the pipeline
+		switch class {
+		case "interrupted":
+			// items at stages 2, 1 and 0, one of them with dwell cycles left, one lane pair occupied
+			p.Accept(it(0))
+			p.Tick(&blocked)
+			p.AcceptWithDelay(it(1), 2)
+			p.Accept(it(2))
+			p.Tick(&blocked)
+			p.Accept(it(3))
+			p.Tick(&blocked)
+			p.AcceptWithDelay(it(4), 1)
+			return reflect.ValueOf(p)
+		case "drained":
+			open := queueing.NewBuffer[T]("sink", 64)
+			p.Accept(it(0))
+			p.AcceptWithDelay(it(1), 1)
+			for i := 0; i < 16 && len(p.Stages()) > 0; i++ {
+				p.Tick(&open)
+			}
+			return reflect.ValueOf(p)
+		}
 		n := count(class, 6)
 		for i := 0; i < n; i++ {
 			for !p.CanAccept() {
-				if !p.Tick(&sink) {
+				if !p.Tick(&blocked) {
 					break
 				}
 			}
@@ -408,34 +501,213 @@ func regPipeline[T any](sample queueing.Pipeline[T]) {
 				break
 			}
 			if i%2 == 0 {
-				p.Accept(item(i).Interface().(T))
+				p.Accept(it(i))
 			} else {
-				p.AcceptWithDelay(item(i).Interface().(T), 2)
+				p.AcceptWithDelay(it(i), 2)
 			}
 		}
 		return reflect.ValueOf(p)
+	}
+	ctrProbes[t] = func(av, bv reflect.Value) string {
+		a, b := av.Addr().Interface().(*queueing.Pipeline[T]), bv.Addr().Interface().(*queueing.Pipeline[T])
+		if a.CanAccept() != b.CanAccept() {
+			return fmt.Sprintf("pipeline CanAccept %v restored as %v", a.CanAccept(), b.CanAccept())
+		}
+		sa, sb := queueing.NewBuffer[T]("sink", 1024), queueing.NewBuffer[T]("sink", 1024)
+		for tick := 0; tick < 32 && (len(a.Stages()) > 0 || len(b.Stages()) > 0); tick++ {
+			ma, mb := a.Tick(&sa), b.Tick(&sb)
+			if ma != mb {
+				return fmt.Sprintf("pipeline tick %d: moved %v, restored %v", tick, ma, mb)
+			}
+			if d := sameItems(fmt.Sprintf("pipeline output up to tick %d", tick), sa.Elements(), sb.Elements()); d != "" {
+				return d
+			}
+		}
+		return ""
 	}
 }
 
 func regLRUSet() {
 	t := reflect.TypeOf(lruset.Set{})
+	key := func(i int) string { return lruset.KeyString(uint64(i), ^uint64(0)-uint64(i)) }
 	containers[t] = func(class string, _ func(int) reflect.Value) reflect.Value {
 		if class == "zero" {
 			return reflect.Zero(t)
 		}
 		s := lruset.NewSet(4)
+		bind := func(i int, visit bool) {
+			way, _ := s.Evict()
+			s.UpdateKey(way, "", key(i))
+			if visit {
+				s.Visit(way)
+			}
+		}
+		switch class {
+		case "interrupted":
+			bind(0, true)
+			bind(1, true)
+			s.Visit(0)
+			s.Evict()      // handed out, not visited again, not re-bound
+			bind(2, false) // handed out and re-bound to a new key, not visited
+			return reflect.ValueOf(s)
+		case "drained":
+			bind(0, true)
+			bind(1, true)
+			for i := 0; i < 4; i++ {
+				s.Evict()
+			}
+			return reflect.ValueOf(s)
+		}
 		n := count(class, 4)
 		for i := 0; i < n; i++ {
-			way, _ := s.Evict()
-			s.UpdateKey(way, "", lruset.KeyString(uint64(i), ^uint64(0)-uint64(i)))
-			s.Visit(way)
+			bind(i, true)
 		}
 		if n > 1 {
 			s.Visit(0)
-			s.Remove(lruset.KeyString(1, ^uint64(0)-1))
+			s.Remove(key(1))
 		}
 		return reflect.ValueOf(s)
 	}
+	ctrProbes[t] = func(av, bv reflect.Value) string {
+		a, b := av.Addr().Interface().(*lruset.Set), bv.Addr().Interface().(*lruset.Set)
+		if reflect.DeepEqual(*a, lruset.Set{}) {
+			return "" // the zero Set has no ways to operate on
+		}
+		for i := 0; i < 6; i++ {
+			wa, fa := a.Lookup(key(i))
+			wb, fb := b.Lookup(key(i))
+			if wa != wb || fa != fb {
+				return fmt.Sprintf("lruset Lookup(key %d) = %d,%v restored %d,%v", i, wa, fa, wb, fb)
+			}
+		}
+		drain := func(s *lruset.Set) (out []int) {
+			for i := 0; i < 64; i++ {
+				w, ok := s.Evict()
+				if !ok {
+					break
+				}
+				out = append(out, w)
+			}
+			return out
+		}
+		xa, xb := drain(a), drain(b)
+		if !reflect.DeepEqual(xa, xb) {
+			return fmt.Sprintf("lruset eviction order %v restored as %v", xa, xb)
+		}
+		// use it again: visits re-enter ways, then the order must still agree
+		for _, w := range []int{2, 0, 3} {
+			a.Visit(w)
+			b.Visit(w)
+		}
+		if xa, xb = drain(a), drain(b); !reflect.DeepEqual(xa, xb) {
+			return fmt.Sprintf("lruset eviction order after re-visits %v restored as %v", xa, xb)
+		}
+		return ""
+	}
+}
+
+// deepCopy returns an addressable deep copy of v (unexported fields included), so a
+// probe can operate on it without touching the value under comparison.
+func deepCopy(v reflect.Value) reflect.Value {
+	x := reflect.New(v.Type()).Elem()
+	x.Set(v)
+	deepCopyInPlace(x)
+	return x
+}
+
+func deepCopyInPlace(x reflect.Value) {
+	x = settable(x)
+	switch x.Kind() {
+	case reflect.Struct:
+		for i := 0; i < x.NumField(); i++ {
+			deepCopyInPlace(x.Field(i))
+		}
+	case reflect.Array:
+		for i := 0; i < x.Len(); i++ {
+			deepCopyInPlace(x.Index(i))
+		}
+	case reflect.Slice:
+		if x.IsNil() {
+			return
+		}
+		n := reflect.MakeSlice(x.Type(), x.Len(), x.Len())
+		reflect.Copy(n, x)
+		x.Set(n)
+		for i := 0; i < n.Len(); i++ {
+			deepCopyInPlace(n.Index(i))
+		}
+	case reflect.Map:
+		if x.IsNil() {
+			return
+		}
+		n := reflect.MakeMapWithSize(x.Type(), x.Len())
+		it := x.MapRange()
+		for it.Next() {
+			e := reflect.New(x.Type().Elem()).Elem()
+			e.Set(it.Value())
+			deepCopyInPlace(e)
+			n.SetMapIndex(it.Key(), e)
+		}
+		x.Set(n)
+	case reflect.Ptr:
+		if x.IsNil() {
+			return
+		}
+		n := reflect.New(x.Type().Elem())
+		n.Elem().Set(x.Elem())
+		deepCopyInPlace(n.Elem())
+		x.Set(n)
+	case reflect.Interface:
+		if x.IsNil() {
+			return
+		}
+		e := reflect.New(x.Elem().Type()).Elem()
+		e.Set(x.Elem())
+		deepCopyInPlace(e)
+		x.Set(e)
+	}
+}
+
+// probeContainers walks an original value and its (equal) restored counterpart and
+// runs the behavioural probe of every encapsulated container found in them.
+func probeContainers(a, b reflect.Value, path string) string {
+	if !a.IsValid() || !b.IsValid() || a.Type() != b.Type() {
+		return ""
+	}
+	if pr, ok := ctrProbes[a.Type()]; ok {
+		if d := pr(deepCopy(a), deepCopy(b)); d != "" {
+			return path + ": " + d
+		}
+		return ""
+	}
+	switch a.Kind() {
+	case reflect.Struct:
+		for i := 0; i < a.NumField(); i++ {
+			if d := probeContainers(a.Field(i), b.Field(i), path+"."+a.Type().Field(i).Name); d != "" {
+				return d
+			}
+		}
+	case reflect.Slice, reflect.Array:
+		for i := 0; i < a.Len() && i < b.Len(); i++ {
+			if d := probeContainers(a.Index(i), b.Index(i), fmt.Sprintf("%s[%d]", path, i)); d != "" {
+				return d
+			}
+		}
+	case reflect.Map:
+		it := a.MapRange()
+		for it.Next() {
+			if bv := b.MapIndex(it.Key()); bv.IsValid() {
+				if d := probeContainers(it.Value(), bv, fmt.Sprintf("%s{%v}", path, it.Key())); d != "" {
+					return d
+				}
+			}
+		}
+	case reflect.Ptr, reflect.Interface:
+		if !a.IsNil() && !b.IsNil() {
+			return probeContainers(a.Elem(), b.Elem(), path)
+		}
+	}
+	return ""
 }
 
 func elemOf[T any](s []T) (z T) { return z }
@@ -566,6 +838,9 @@ func firstFailures(ps []pair) (order []string, kind, detail map[string]string) {
 		if ok, k, d := SameKind(p.want, p.got); !ok {
 			order = append(order, p.variant)
 			kind[p.variant], detail[p.variant] = k, d
+		} else if d := probeContainers(p.want, p.got, ""); d != "" {
+			order = append(order, p.variant)
+			kind[p.variant], detail[p.variant] = "container_behaviour", "equal by value, but "+d
 		}
 	}
 	return order, kind, detail
@@ -706,7 +981,7 @@ var seededClasses = map[string][]string{
 	"int": {"zero", "one", "max", "min"}, "uint": {"zero", "one", "max"}, "float": {"zero", "fin", "max", "min"},
 	"string": {"empty", "ascii", "unicode", "nonutf8", "long"}, "bytes": {"nil", "empty", "one", "many"},
 	"slice": {"nil", "empty", "one", "two"}, "map": {"nil", "empty", "one", "two"}, "bool": {"false", "true"},
-	"container": {"zero", "empty", "part", "full"}, "custom": {"base"}, "iface": {"nil"},
+	"container": {"zero", "empty", "part", "full", "interrupted", "drained"}, "custom": {"base"}, "iface": {"nil"},
 }
 
 func init() {
